@@ -261,7 +261,11 @@ def h_evaluation_start():
             nd = vm.alloc(vm.ext("object"), tag=f"node{i}")
             nd.fields["_start_evaluation_"] = Builtin("_start_evaluation_", lambda it, fr, a, k, i=i: log.append(("start", i)))
             nodes.append(nd)
-        vm.spec.attr_hooks[("SymbolicExpression", "_all_nodes_")] = lambda it, o: PyList(list(nodes))
+        # the node list is read off the expression tree AS IT IS when the evaluation starts (the real _all_nodes_ / _descendants_
+        # run on a display node whose descendants the harness changes between two evaluations: a rule tree may grow)
+        wrappers = PyList([vm.alloc(vm.ext("object"), {"data": nd}, tag=f"display-node{i}") for i, nd in enumerate(nodes[:2])])
+        q.fields["_node_"] = vm.alloc(vm.ext("object"), {"descendants": wrappers}, tag="display-node-of-the-query")
+        q.fields["_start_evaluation_"] = Builtin("_start_evaluation_", lambda it, fr, a, k: log.append(("start", "q")))
         g = vm.alloc(vm.ext("object"), tag="graph")
         g.fields["remove_dead_instances"] = Builtin("sweep", lambda it, fr, a, k: None)
         vm.spec.stubs["SymbolGraph.__call__"] = lambda vm_, a, k: g
@@ -273,7 +277,13 @@ def h_evaluation_start():
         vm.spec.stubs["ResultQuantifier._process_result_"] = lambda vm_, a, k: a[1]
         out = list(vm.iterate(vm.call_method(q, "evaluate")))
         ctx.check("ResultQuantifier.evaluate::every-node-is-told-that-an-evaluation-starts-before-anything-is-pulled",
-                  z3.BoolVal(log == [("start", 0), ("start", 1), ("start", 2), "pull"] and out == ["r"]), detail=repr(log))
+                  z3.BoolVal(sorted(map(str, log[:-1])) == sorted(map(str, [("start", "q"), ("start", 0), ("start", 1)])) and log[-1] == "pull" and out == ["r"]), detail=repr(log))
+        # the tree grows (a refinement / alternative added to the rule after the first evaluation): the next evaluation tells the new node too
+        wrappers.items.append(vm.alloc(vm.ext("object"), {"data": nodes[2]}, tag="display-node2"))
+        del log[:]
+        out = list(vm.iterate(vm.call_method(q, "evaluate")))
+        ctx.check("ResultQuantifier.evaluate::nodes-added-after-an-earlier-evaluation-are-told-too",
+                  z3.BoolVal(("start", 2) in log and log and log[-1] == "pull" and log.index(("start", 2)) < log.index("pull")), detail=repr(log))
     return Harness("evaluation-start", run, spec=Spec())
 
 
